@@ -26,22 +26,29 @@ def main():
     src, first = inspect.getsourcelines(rescaling._count_mutations)
     heads = [first + i for i, l in enumerate(src) if l.strip() == HEAD_TEXT]
     if len(heads) != 1:
-        print("loop head not found", file=sys.stderr)
+        print("DRIFT: loop head of _count_mutations not found in the source", file=sys.stderr)
         sys.exit(3)
     head_line = heads[0]
     code = rescaling._count_mutations.__code__
     events = []
+    lost = []
 
     def local_tracer(frame, event, arg):
         if event == "line" and frame.f_lineno == head_line:
-            L = frame.f_locals
-            events.append({"kind": "head", "left": int(L["left"]), "a": int(L["a"]), "b": int(L["b"]), "d": int(L["d"]),
-                           "emuts": [int(x) for x in L["edges_mutations"]], "espan": [int(x) for x in L["edges_span"]],
-                           "ns": [int(x) for x in L["nodes_samples"]],
-                           "ne": [int(x) + 1 for x in L["nodes_edge"]], "np": [int(x) for x in L["nodes_parent"]],
-                           "medge": [int(x) + 1 for x in L["mutations_edge"]],
-                           "order": [int(x) for x in L["indexes_mutation"]]})
+            try:
+                snapshot(frame.f_locals)
+            except (KeyError, TypeError, ValueError, IndexError) as ex:   # the kernel's locals were renamed / retyped
+                lost.append(repr(ex))
+                return None
         return local_tracer
+
+    def snapshot(L):
+        events.append({"kind": "head", "left": int(L["left"]), "a": int(L["a"]), "b": int(L["b"]), "d": int(L["d"]),
+                       "emuts": [int(x) for x in L["edges_mutations"]], "espan": [int(x) for x in L["edges_span"]],
+                       "ns": [int(x) for x in L["nodes_samples"]],
+                       "ne": [int(x) + 1 for x in L["nodes_edge"]], "np": [int(x) for x in L["nodes_parent"]],
+                       "medge": [int(x) + 1 for x in L["mutations_edge"]],
+                       "order": [int(x) for x in L["indexes_mutation"]]})
 
     def tracer(frame, event, arg):
         if event == "call" and frame.f_code is code:
@@ -63,6 +70,9 @@ def main():
                     ts.sequence_length, bool(inst["sb"]))
             finally:
                 sys.settrace(None)
+            if lost:
+                print("DRIFT: the locals of _count_mutations could not be read at the loop head: " + lost[0], file=sys.stderr)
+                sys.exit(3)
             # mutation id (ts order) of each entry of the instance's sorted mutation sequence
             pos = ts.sites_position[ts.mutations_site]
             key = {(int(pos[m]), int(ts.mutations_node[m])): m for m in range(ts.num_mutations)}
